@@ -30,7 +30,7 @@ AllFlags == {"dict-value-first", "call-kw-first", "cmp-operand-twice", "cmp-bool
              "aug-target-twice", "aug-binary-op", "fstring-conv-ignored", "uadd-noop",
              "call-callee-eq", "call-str-args", "unpack-consumes-all", "comp-leak-on-raise",
              "genexp-unsupported", "del-attr-as-state", "del-tuple-unsupported",
-             "list-target-unsupported", "dstar-pairs", "star-target-nonname", "star-uses-add"}
+             "list-target-unsupported", "dstar-pairs", "star-target-nonname", "star-uses-add", "kw-dup-accepted", "matmul-unsupported"}
 
 Builtins == {"list", "tuple", "set"}
 
@@ -240,18 +240,26 @@ ReprWalkSeq(e, i, st, tr, env, kind) ==
        IF r.x # "" THEN r ELSE ReprWalkSeq(e, i + 1, r.st, tr, env, kind)
 
 \* keyword arguments in order; `**m` merged in place (keys, then getitem per key)
+KwPos(names, key) == IF \E j \in 1..Len(names) : Same(names[j], key) THEN CHOOSE j \in 1..Len(names) : Same(names[j], key) ELSE 0
 MergeKeys(m, keys, i, st, tr, env, names, vals) ==
   IF i > Len(keys) \/ ~st.ok THEN [st |-> st, names |-> names, vs |-> vals, x |-> "", env |-> env]
-  ELSE LET g == Prim(st, tr, env, "DStar", "getitem", "", <<m, keys[i]>>, <<>>, 0) IN
-       IF Stop(g) THEN [st |-> g.st, names |-> names, vs |-> vals, x |-> g.x, env |-> env]
-       ELSE MergeKeys(m, keys, i + 1, g.st, tr, env, Append(names, keys[i]), Append(vals, g.v))
+  ELSE LET dup == KwPos(names, keys[i]) IN
+       IF dup # 0 /\ ~Has(st, "kw-dup-accepted") THEN [st |-> st, names |-> names, vs |-> vals, x |-> "TypeError", env |-> env]
+       ELSE LET g == Prim(st, tr, env, "DStar", "getitem", "", <<m, keys[i]>>, <<>>, 0) IN
+            IF Stop(g) THEN [st |-> g.st, names |-> names, vs |-> vals, x |-> g.x, env |-> env]
+            ELSE IF dup # 0 THEN MergeKeys(m, keys, i + 1, g.st, tr, env, names, [vals EXCEPT ![dup] = g.v])
+            ELSE MergeKeys(m, keys, i + 1, g.st, tr, env, Append(names, keys[i]), Append(vals, g.v))
 
 \* names: sequence of key descriptors (c-kind str for real keywords)
 EvalKws(kws, i, st, tr, env, names, vals) ==
   IF i > Len(kws) \/ ~st.ok THEN [st |-> st, names |-> names, vs |-> vals, x |-> "", env |-> env]
   ELSE LET r == Eval(kws[i].v, st, tr, env) IN
        IF Stop(r) THEN [st |-> r.st, names |-> names, vs |-> vals, x |-> r.x, env |-> r.env]
-       ELSE IF kws[i].name # "" THEN EvalKws(kws, i + 1, r.st, tr, r.env, Append(names, StrC(kws[i].name)), Append(vals, r.v))
+       ELSE IF kws[i].name # "" THEN
+            LET dup == KwPos(names, StrC(kws[i].name)) IN
+            IF dup # 0 /\ ~Has(st, "kw-dup-accepted") THEN [st |-> r.st, names |-> names, vs |-> vals, x |-> "TypeError", env |-> r.env]
+            ELSE IF dup # 0 THEN EvalKws(kws, i + 1, r.st, tr, r.env, names, [vals EXCEPT ![dup] = r.v])
+            ELSE EvalKws(kws, i + 1, r.st, tr, r.env, Append(names, StrC(kws[i].name)), Append(vals, r.v))
        ELSE IF IsRec(r.v) THEN
             IF NextIs(r.st, tr, "keys", "", r.v) \/ (r.st.l > Len(tr) /\ r.st.exc = "") THEN
                  LET ks == Prim(r.st, tr, r.env, "DStar", "keys", "", <<r.v>>, <<>>, 0) IN
@@ -262,9 +270,12 @@ EvalKws(kws, i, st, tr, env, names, vals) ==
             ELSE IF Has(st, "dstar-pairs") THEN
                  LET pu == PairsUpdate(r.v, NoIt, r.st, tr, r.env, EmptyDict, "DStar") IN
                  IF pu.x # "" \/ ~pu.st.ok THEN [st |-> pu.st, names |-> names, vs |-> vals, x |-> pu.x, env |-> r.env]
-                 ELSE [st |-> pu.st, names |-> names, vs |-> vals, x |-> "TypeError", env |-> r.env]   \* keywords must be strings
+                 ELSE EvalKws(kws, i + 1, pu.st, tr, r.env, names \o pu.d.ks, vals \o pu.d.vs)   \* non-string keys fail at the call
             ELSE [st |-> r.st, names |-> names, vs |-> vals, x |-> "TypeError", env |-> r.env]       \* not a mapping
-       ELSE IF r.v.k = "dict" THEN EvalKws(kws, i + 1, r.st, tr, r.env, names \o r.v.ks, vals \o r.v.vs)
+       ELSE IF r.v.k = "dict" THEN
+            IF \E j \in 1..Len(r.v.ks) : KwPos(names, r.v.ks[j]) # 0
+            THEN [st |-> NotMod(r.st, "DStar", "duplicate keyword from a dict display"), names |-> names, vs |-> vals, x |-> "", env |-> r.env]
+            ELSE EvalKws(kws, i + 1, r.st, tr, r.env, names \o r.v.ks, vals \o r.v.vs)
        ELSE [st |-> NotMod(r.st, "DStar", "** of a plain " \o r.v.k), names |-> names, vs |-> vals, x |-> "", env |-> r.env]
 
 \* deviation dstar-pairs: dict.update(iterable of pairs) instead of "not a mapping"
@@ -281,6 +292,9 @@ PairsUpdate(m, it, st, tr, env, d, kind) ==
             ELSE PairsUpdate(m, it, pr.st, tr, env, DictPut(d, pr.vs[1], pr.vs[2], 1), kind)
 
 NameOf(kd) == IF kd.k = "c" THEN kd.s ELSE "?"
+\* TypeError raised by keyword processing: CPython's message formats the callee (str(f) is an event
+\* for a recorder callee); the event is accepted when present, never required
+KwErr(st, tr, env, fv) == Ex(IF NextIs(st, tr, "conv", "s", fv) THEN Adv(st) ELSE st, "TypeError", env)
 
 \* str(arg) of every positional argument (deviation call-str-args)
 ReprWalkStr(args, st, tr, env) ==
@@ -296,6 +310,7 @@ FinishCall(fv, args, names, kvals, st, tr, env, dummy) ==
   LET s2 == IF Has(st, "call-callee-eq") /\ IsRec(fv)
             THEN Prim(s1.st, tr, env, "Call", "cmp", "eq", <<fv, Opq>>, <<>>, 0) ELSE Ok(s1.st, NoneV, env) IN
   IF Stop(s2) THEN s2 ELSE
+  IF \E j \in 1..Len(names) : ~(names[j].k = "c" /\ names[j].t = "str") THEN KwErr(s2.st, tr, env, fv) ELSE
   IF IsRec(fv) \/ fv.k = "fn"
   THEN Prim(s2.st, tr, env, "Call", "call", "", <<fv>> \o args \o kvals, [j \in 1..Len(names) |-> NameOf(names[j])], Len(args))
   ELSE Ex(NotMod(s2.st, "Call", "call of a plain callee"), "", env)
@@ -311,7 +326,7 @@ CallNode(n, st, tr, env) ==
             ELSE Ex(NotMod(f.st, "GeneratorExp", "lazy generator"), "", f.env)
   ELSE IF Has(st, "call-kw-first") THEN
        LET kw == EvalKws(n.kws, 1, f.st, tr, f.env, <<>>, <<>>) IN
-       IF kw.x # "" \/ ~kw.st.ok THEN Ex(kw.st, kw.x, kw.env) ELSE
+       IF kw.x = "TypeError" /\ kw.st.ok THEN KwErr(kw.st, tr, kw.env, f.v) ELSE IF kw.x # "" \/ ~kw.st.ok THEN Ex(kw.st, kw.x, kw.env) ELSE
        LET a == EvalElts(n.args, 1, kw.st, tr, kw.env, <<>>) IN
        IF a.x # "" \/ ~a.st.ok THEN Ex(a.st, a.x, a.env) ELSE
        FinishCall(f.v, a.vs, kw.names, kw.vs, a.st, tr, a.env, 0)
@@ -323,17 +338,17 @@ CallNode(n, st, tr, env) ==
             LET a == Iterate(sv.v, sv.st, tr, sv.env, "Starred") IN
             IF a.x # "" \/ ~a.st.ok THEN Ex(a.st, a.x, sv.env) ELSE
             LET kw == EvalKws(n.kws, 1, a.st, tr, sv.env, <<>>, <<>>) IN
-            IF kw.x # "" \/ ~kw.st.ok THEN Ex(kw.st, kw.x, kw.env) ELSE
+            IF kw.x = "TypeError" /\ kw.st.ok THEN KwErr(kw.st, tr, kw.env, f.v) ELSE IF kw.x # "" \/ ~kw.st.ok THEN Ex(kw.st, kw.x, kw.env) ELSE
             FinishCall(f.v, a.vs, kw.names, kw.vs, kw.st, tr, kw.env, 0)
        ELSE LET kw == EvalKws(n.kws, 1, sv.st, tr, sv.env, <<>>, <<>>) IN
-            IF kw.x # "" \/ ~kw.st.ok THEN Ex(kw.st, kw.x, kw.env) ELSE
+            IF kw.x = "TypeError" /\ kw.st.ok THEN KwErr(kw.st, tr, kw.env, f.v) ELSE IF kw.x # "" \/ ~kw.st.ok THEN Ex(kw.st, kw.x, kw.env) ELSE
             LET a == Iterate(sv.v, kw.st, tr, kw.env, "Starred") IN
             IF a.x # "" \/ ~a.st.ok THEN Ex(a.st, a.x, kw.env) ELSE
             FinishCall(f.v, a.vs, kw.names, kw.vs, a.st, tr, kw.env, 0)
   ELSE LET a == EvalElts(n.args, 1, f.st, tr, f.env, <<>>) IN
        IF a.x # "" \/ ~a.st.ok THEN Ex(a.st, a.x, a.env) ELSE
        LET kw == EvalKws(n.kws, 1, a.st, tr, a.env, <<>>, <<>>) IN
-       IF kw.x # "" \/ ~kw.st.ok THEN Ex(kw.st, kw.x, kw.env) ELSE
+       IF kw.x = "TypeError" /\ kw.st.ok THEN KwErr(kw.st, tr, kw.env, f.v) ELSE IF kw.x # "" \/ ~kw.st.ok THEN Ex(kw.st, kw.x, kw.env) ELSE
        FinishCall(f.v, a.vs, kw.names, kw.vs, kw.st, tr, kw.env, 0)
 
 \* {k1: v1, **m, ...}: key before value, pairs left to right (flag dict-value-first: value first)
@@ -472,6 +487,7 @@ Eval(n, st, tr, env) ==
     [] n.k = "Const" -> Ok(st, n.v, env)
     [] n.k = "Absent" -> Ok(st, NoneV, env)
     [] n.k = "BinOp" ->
+         IF n.op = "matmul" /\ Has(st, "matmul-unsupported") THEN Ex(st, "NotImplementedError", env) ELSE
          LET l == Eval(n.l, st, tr, env) IN IF Stop(l) THEN l ELSE
          LET r == Eval(n.r, l.st, tr, l.env) IN IF Stop(r) THEN r ELSE
          BinPrim(n.op, l.v, r.v, FALSE, r.st, tr, r.env, "BinOp")
@@ -628,6 +644,7 @@ ExecStmt(s, st, tr, env) ==
                     IF a.x # "" THEN a ELSE Targets(j + 1, a.st, a.env)
          IN Targets(1, e.st, e.env)
     [] s.k = "AugAssign" ->
+         IF s.op = "matmul" /\ Has(st, "matmul-unsupported") THEN S(st, env, "NotImplementedError") ELSE
          IF s.t.k = "Name" THEN
               IF s.t.id \notin DOMAIN env THEN S(st, env, "NameError") ELSE
               LET e == Eval(s.v, st, tr, env) IN IF Stop(e) THEN SofR(e) ELSE
